@@ -888,6 +888,11 @@ def run_memory_case(rng, name, mk, cycles, with_reset=False):
             return 0, None, "unsupported: " + "; ".join(mt.unsupported[:2])
         pv = L.PyVSim(mt, mt.name_ids, cap.result.data_files)
         nl = Netlist(fA, clocks=tuple(cdsA))
+        und = pv.undriven_report()
+        if und is not None:
+            und.update(oracle="golden-module (memory)", module=name, cycle=0, port=sorted(pv.undriven)[0],
+                       simulator="reset value", verilog="x", trace=[])
+            return 0, und, "ok"
     except L.Unsupported as ex:
         return 0, None, "unsupported: " + str(ex)[:100]
     f = cap.f
@@ -1324,13 +1329,15 @@ def lowering_arith(ctx, n_cases, dis):
         fn = _lower_slice_cat if kind == "cat" else _lower_slice_replicate
         rnode, rstart = fn(node, start, length)
         lines.append("low %s %d %d ; %s" % (kind, start, length, " ".join(ser_expr(node, ids))))
-        metas.append((kind, start, length, "%d %s" % (rstart, " ".join(ser_expr(rnode, ids))), rnode is not node))
+        wit = {"sigs": [[s_.nbits, bool(s_.signed)] for s_ in sigs],
+               "expr": ["slice", dump_ast(node, sigs), start, start + length], "lw": length}
+        metas.append((kind, start, length, "%d %s" % (rstart, " ".join(ser_expr(rnode, ids))), rnode is not node, wit))
     moved = 0
-    for (kind, start, length, want, changed), ans in zip(metas, ctx.lean.call_batch(lines)):
+    for (kind, start, length, want, changed, wit), ans in zip(metas, ctx.lean.call_batch(lines)):
         moved += 1 if changed else 0
         if " ".join(ans.split()) != want:
             dis.append(Dis("lowering-arith", fn="_lower_slice_" + ("cat" if kind == "cat" else "replicate"),
-                           start=start, length=length, real=want[:200], lean=ans[:200]))
+                           start=start, length=length, real=want[:200], lean=ans[:200], witness=wit))
             if len(dis) > 5:
                 break
     ctx.cov.add_cases("_lower_slice_cat/_replicate index arithmetic vs Lean lowerCat/lowerRep", len(metas), moved,
@@ -1506,6 +1513,8 @@ def run_witness(ctx, w):
     for s, v in zip(sB, w["env"]):
         pv.state[ids.get(s)] = v & ((1 << s.nbits) - 1)
     pv.settle()
+    if pv.undriven:
+        pv.state[ids.get(yB)] = "x (wire bits not driven: %s)" % pv.undriven_report()["undriven_wire_bits"]
     t = cap.text
     body = t[t.index("// Combinatorial Logic"):t.index("// Synchronous Logic")]
     return dict(simulator=sim, verilog=pv.state[ids.get(yB)], lean=None,
@@ -1576,6 +1585,8 @@ def correspond(ctx):
         l2_cores(ctx, 250 if quick else 2500, dis)
     if len(dis) <= 10:
         l3_memories(ctx, 300 if quick else 3000, dis)
+    if len(dis) <= 10:
+        run_simulation_tie(ctx, 14 if quick else 140, 10 if quick else 100, 50 if quick else 120, dis)
     # independent golden reading (also the failing-input oracle): must accept the unchanged tree
     t0 = time.time()
     n1, bad1 = oracle_expressions(ctx.rng, 1000 if quick else 10000)
@@ -1666,6 +1677,9 @@ def safe_module(rng, maxw=6):
     if rng.random() < 0.4:
         m.clock_domains.cd_b = ClockDomain("b")
         doms.append("b")
+        if rng.random() < 0.4:
+            m.clock_domains.cd_c = ClockDomain("c")
+            doms.append("c")
     if rng.random() < 0.15:
         maxw = rng.choice([33, 40, 65])
     ins = make_sigs(rng, rng.randint(2, 3), maxw=maxw, prefix="i", p_signed=0.0)
@@ -1683,6 +1697,12 @@ def safe_module(rng, maxw=6):
         m.comb += sg.stmts([c], rng.randint(0, 2))
         combs.append(c)
         readable = readable + [c]
+    if rng.random() < 0.3:
+        # a clock read as data (ClockSignal is lowered to the domain's clk signal by convert)
+        from migen.fhdl.structure import ClockSignal
+        ck = Signal(name_override="ckd")
+        m.comb += ck.eq(ClockSignal(rng.choice(doms)) ^ ins[0][0])
+        combs.append(ck)
     g = L.SafeGen(rng, list(readable), list(sins), complex_slices=True)
     sg = L.StmtGen(rng, SafeAdapter(g))
     # every register is driven from exactly one clock domain
@@ -1772,6 +1792,16 @@ def run_safe_module(seed, cycles, rng=None, trace=None, ticks=None):
         return 0, {"oracle": "golden-module", "error": repr(ex), "seed": seed,
                    "what": "the text emitted for a safe module cannot be read"}, False
     nl = Netlist(fA, clocks=tuple(cdsA))
+    und = pv.undriven_report()
+    if und is not None:
+        nl.settle()
+        t0 = cap.text
+        und.update(oracle="golden-module", seed=seed, cycle=0, convert_options=kw,
+                   replay={"kind": "safe-module", "seed": seed, "trace": [], "ticks": []},
+                   simulator_holds={nm: nl.getu(iosA[j]) for j, sg in enumerate(iosB)
+                                    for nm in [cap.ns.get_name(sg)] if nm in pv.undriven},
+                   verilog_text=t0[t0.index("module"):][:3000])
+        return 0, und, False
     targets = list_targets(cap.f)
     cds = [cd.name for cd in cap.f.clock_domains]
     clks = [cd.clk for cd in cap.f.clock_domains]
@@ -1814,6 +1844,237 @@ def run_safe_module(seed, cycles, rng=None, trace=None, ticks=None):
         nl.tick(tuple(tick))
         pv.tick({ids.get(c) for c, d in zip(clks, cds) if d in tick})
     return n, None, False
+
+
+# ----------------------------------------------------------------------------------------------------------
+# Tie to the real `run_simulation` (Simulator.run / TimeManager / generator processing): the simulation users run
+# ----------------------------------------------------------------------------------------------------------
+
+def edge_schedule(desc, n_instants):
+    """Instants of a clock description {name: (period, phase)} (even periods, 0 <= phase < period/2), derived from
+    the description alone: clock `name` is low at t = 0, rises at every t > 0 with t = period/2 - phase (mod period)
+    and falls period/2 later.  Returns [(t, rising names (sorted), falling names (sorted), levels after the instant)]."""
+    ev = {}
+    horizon = (n_instants + 2) * max(p for p, _ in desc.values())
+    for name, (period, phase) in desc.items():
+        assert period % 2 == 0 and 0 <= phase < period // 2
+        t = period // 2 - phase
+        while t <= horizon:
+            ev.setdefault(t, (set(), set()))[0].add(name)
+            ev.setdefault(t + period // 2, (set(), set()))[1].add(name)
+            t += period
+    level = {name: 0 for name in desc}
+    out = []
+    for t in sorted(ev)[:n_instants]:
+        r_, f_ = ev[t]
+        for nm in r_:
+            level[nm] = 1
+        for nm in f_:
+            level[nm] = 0
+        out.append((t, sorted(r_), sorted(f_), dict(level)))
+    return out
+
+
+def random_clock_desc(rng, doms, with_tb):
+    """1-3 design domains (+ a test-bench clock): different periods and phases, rising edges mostly NOT coincident."""
+    desc = {}
+    for d in list(doms) + (["tb"] if with_tb else []):
+        period = rng.choice([4, 6, 10, 10, 14, 20])
+        desc[d] = (period, rng.randrange(0, period // 2))
+    return desc
+
+
+def run_simulation_case(seed, n_instants, kind, lean=None):
+    """One module (deterministic in `seed`), simulated by the REAL `run_simulation` with generators — a driver on
+    one clock writing the inputs, one passive sampler per clock reading every named signal — and, with the edge
+    schedule derived independently from the clock description (`edge_schedule`), by
+      kind="safe": the independent reading (PyVSim) of the text the real convert emitted (safe module);
+      kind="lean": Lean stepF (all named signals, every instant) and stepV on the real text (random module).
+    A sample taken by the generator of clock d at its k-th rising edge is the settled state BEFORE that instant.
+    Returns (instants compared, failing input or None)."""
+    from migen.fhdl.tools import list_signals, list_targets
+    from litex.gen.sim.core import run_simulation
+    r0 = random.Random(seed)
+
+    def build():
+        r = random.Random(seed)
+        if kind == "safe":
+            m, ios = safe_module(r)
+        else:
+            m, ios = L.random_module(r, maxw=r.choice([3, 5, 9]), tame=(seed % 3 != 0))
+        return m, sorted(ios, key=lambda s: s.duid)
+    mA, iosA = build()
+    mB, iosB = build()
+    fB = mB.get_fragment()
+    doms = [cd.name for cd in fB.clock_domains]
+    rr = random.Random(seed ^ 0x5a5a)
+    desc = random_clock_desc(rr, doms, with_tb=rr.random() < 0.5)
+    driver_dom = "tb" if "tb" in desc else rr.choice(doms)
+    sched = edge_schedule(desc, n_instants)
+    # ---- text side
+    try:
+        cap = L.convert_capture(fB, iosB)
+        ids, sigs, groups, secs = L.ser_module(cap)
+        name_ids = {cap.ns.get_name(s): ids.get(s) for s in sigs}
+        mt = L.parse_module(cap.text, name_ids)
+        if mt.unsupported or (kind == "lean" and mt.blocking):
+            return 0, None
+        pv = L.PyVSim(mt, name_ids) if kind == "safe" else None
+        items, decls = L.ser_vmodule(mt, name_ids) if kind == "lean" else (None, None)
+    except (L.ParseError, L.Unsupported) as ex:
+        return 0, None
+    f = cap.f
+    targets = list_targets(f)
+    clkB = {cd.name: cd.clk for cd in f.clock_domains}
+    in_idx = [j for j, s in enumerate(iosB) if s not in targets and not any(s is c for c in clkB.values())]
+    rstsB = [cd.rst for cd in f.clock_domains if cd.rst is not None]
+    # ---- real run_simulation on build A
+    fA = mA.get_fragment()
+    named = {s.name_override: s for s in list_signals(fA) if s.name_override}
+    for cd in fA.clock_domains:
+        named[cd.clk.name_override] = cd.clk
+        if cd.rst is not None:
+            named[cd.rst.name_override] = cd.rst
+    obs_names = sorted(n_ for n_ in named if n_ in name_ids)
+    obs_sigs = [named[n_] for n_ in obs_names]
+    samples = {d: [] for d in desc}
+    n_drv = sum(1 for _, r_, _, _ in sched if driver_dom in r_)
+    writes = []
+    prev = [None]
+
+    def driver():
+        for k in range(n_drv):
+            vals = stimulus(rr, [iosB[j] for j in in_idx], rstsB, prev[0], k)
+            prev[0] = vals
+            writes.append(vals)
+            for j, v in zip(in_idx, vals):
+                yield iosA[j].eq(v)
+            yield
+
+    def sampler(d):
+        def gen():
+            yield "passive"
+            while True:
+                vals = yield obs_sigs
+                samples[d].append(vals)
+                yield
+        return gen()
+    gens = {d: [sampler(d)] for d in desc}
+    gens[driver_dom] = [sampler(driver_dom), driver()]     # sample first, then drive
+    try:
+        run_simulation(fA, gens, clocks={d: (p, ph) if ph else p for d, (p, ph) in desc.items()})
+    except Exception as ex:
+        return 0, {"oracle": "run_simulation", "seed": seed, "kind": kind, "clocks": desc, "error": repr(ex)[:300],
+                   "what": "the real run_simulation raises on a generated module"}
+    # ---- reference run with the independent schedule: cycle n = [apply the inputs written at the previous driver
+    #      edge and the clock levels, settle, observe = state before instant n, rising edges of instant n]
+    cur = {j: iosB[j].reset.value for j in in_idx}      # until the driver's first write: the reset values
+    level = {d: 0 for d in desc}
+    wk = 0
+    ref = []          # per instant: dict name -> value (bits) or Lean line parts
+    cyc_lines = []
+    rise_count = {d: 0 for d in desc}
+    checks = []       # (instant index, domain, sample index)
+    for n, (t, r_, f_, lev) in enumerate(sched):
+        if kind == "safe":
+            for j in in_idx:
+                pv.state[ids.get(iosB[j])] = cur[j] & ((1 << iosB[j].nbits) - 1)
+            for d, c in clkB.items():
+                pv.state[ids.get(c)] = level.get(d, 0)
+            pv.settle()
+            ref.append({n_: pv.state[name_ids[n_]] for n_ in obs_names})
+            pv.tick({ids.get(clkB[d]) for d in r_ if d in clkB})
+        else:
+            tclks = [clkB[d] for d in r_ if d in clkB]
+            vals = [cur[j] for j in in_idx] + [level.get(d, 0) for d in clkB]
+            cyc_lines.append("%d %s %s" % (len(tclks), " ".join(str(ids.get(c)) for c in tclks), " ".join(map(str, vals))))
+        for d in r_:
+            checks.append((n, d, rise_count[d]))
+            rise_count[d] += 1
+        if driver_dom in r_ and wk < len(writes):
+            for j, v in zip(in_idx, writes[wk]):
+                cur[j] = v
+            wk += 1
+        level = dict(lev)
+    sigsB_by_name = {cap.ns.get_name(s): s for s in sigs}
+    if kind == "lean":
+        ins_ids = [ids.get(iosB[j]) for j in in_idx] + [ids.get(c) for c in clkB.values()]
+        obs_ids = [name_ids[n_] for n_ in obs_names]
+        line = "sim %d ; %s ; %s ; %s ; %s ; %s ; %s ; %s ; %s ; %s" % (
+            64, " ".join(secs["sigs"]), " ".join(secs["comb"]), " ".join(secs["sync"]), " ".join(items), " ".join(decls),
+            " ".join([str(len(cap.ios))] + [str(ids.get(s)) for s in sorted(cap.ios, key=lambda s: s.duid)]),
+            " ".join([str(len(ins_ids))] + list(map(str, ins_ids))),
+            " ".join([str(len(obs_ids))] + list(map(str, obs_ids))), " ; ".join(cyc_lines))
+        ans = lean.call_batch([line])[0]
+        if ans.startswith("bad"):
+            return 0, {"oracle": "run_simulation", "seed": seed, "kind": kind, "what": "Lean driver rejects the module", "answer": ans[:100]}
+        parts = ans.split(" ; ")
+        lean_rows = []
+        for p_ in parts[1:]:
+            body, _, nf = p_.partition("!")
+            ws = body.split()
+            lean_rows.append((int(ws[0]), ws[1] == "1", [int(x) for x in ws[2:]]))
+    compared = 0
+    for n, d, k in checks:
+        if k >= len(samples[d]):
+            continue
+        samp = samples[d][k]
+        compared += 1
+        for i_, n_ in enumerate(obs_names):
+            sB = sigsB_by_name[n_]
+            if any(sB is c for c in clkB.values()) and False:
+                continue
+            real = samp[i_]
+            if kind == "safe":
+                want = ref[n][n_]
+                same = (real & ((1 << sB.nbits) - 1)) == want
+            else:
+                want = lean_rows[n][2][i_]
+                same = real == want
+            if not same:
+                return compared, {
+                    "oracle": "run_simulation vs " + ("independent reading of the emitted text" if kind == "safe" else "Lean stepF"),
+                    "seed": seed, "kind": kind, "clocks": desc, "driver_clock": driver_dom,
+                    "replay": {"kind": "run-simulation", "seed": seed, "case": kind, "instants": n_instants},
+                    "instant": n, "time": sched[n][0], "rising": sched[n][1], "sampled_by_clock": d, "signal": n_,
+                    "run_simulation": int(real), "expected_before_this_instant": int(want),
+                    "schedule": [(t_, r2, f2) for t_, r2, f2, _ in sched[:n + 1]][-8:],
+                    "inputs": [cap.ns.get_name(iosB[j]) for j in in_idx], "writes_at_driver_edges": writes[:wk][-6:],
+                    "what": "a signal sampled by a generator of the real run_simulation differs from the state the "
+                            "design must be in before that instant (edge schedule derived from the clock description)"}
+    if kind == "lean":
+        # stepV on the real text vs stepF under the same schedule: the module theorem's claim
+        prev_fits = True
+        for n, (mism, fits, _) in enumerate(lean_rows):
+            if mism and fits and prev_fits:
+                return compared, {"oracle": "run_simulation schedule: Lean stepV(real text) vs stepF", "seed": seed,
+                                  "kind": kind, "clocks": desc, "instant": n, "signal": cap.ns.get_name(sigs[mism - 1]),
+                                  "what": "all side conditions hold but stepV (real text) and stepF differ"}
+            prev_fits = fits
+    return compared, None
+
+
+def run_simulation_tie(ctx, n_safe, n_lean, n_instants, dis):
+    tot = dict(safe=0, lean=0, instants=0)
+    for kind, n_mod in (("safe", n_safe), ("lean", n_lean)):
+        for k in range(n_mod):
+            seed = ctx.rng.randrange(1 << 30)
+            try:
+                c, bad = run_simulation_case(seed, n_instants, kind, ctx.lean)
+            except Exception as ex:
+                traceback.print_exc()
+                c, bad = 0, {"oracle": "run_simulation", "seed": seed, "kind": kind, "error": repr(ex)[:300],
+                             "what": "exception in the run_simulation tie (seed reproduces it)"}
+            tot[kind] += 1 if c else 0
+            tot["instants"] += c
+            if bad is not None:
+                dis.append(Dis("run-simulation", **{("case" if k_ == "kind" else k_): v_ for k_, v_ in bad.items()}))
+                ctx.sim_tie_bad = bad
+                break
+    ctx.cov.add_cases("real run_simulation (generators, 1-3 clocks + test-bench clock, different periods/phases) vs the "
+                      "independent reading of the text / Lean stepF+stepV under an independently derived edge schedule",
+                      tot["instants"], tot["instants"], exhaustive=False)
+    ctx.log("run_simulation tie: %s" % tot)
 
 
 def oracle_modules(rng, n_mod, cycles):
@@ -1890,6 +2151,17 @@ def search(ctx, disagreements, proof_info):
     text vs the real Evaluator on expressions / modules without overflow sites; (2) if that finds nothing, a
     correspondence disagreement that is itself a concrete semantic difference (values on a valuation)."""
     rng = random.Random(ctx.seed + 77)
+    stb = getattr(ctx, "sim_tie_bad", None)
+    if stb is not None and stb.get("kind") == "safe":
+        return stb
+    if any(d.to_json()["kind"] == "run-simulation" for d in disagreements):
+        for k in range(80):
+            try:
+                c, bad = run_simulation_case(rng.randrange(1 << 30), 60, "safe")
+            except Exception as ex:
+                bad = {"oracle": "run_simulation", "error": repr(ex)[:300]}
+            if bad is not None:
+                return bad
     n1, bad = oracle_expressions(rng, 3000)
     if bad is None:
         n2, bad = oracle_modules(rng, 150, 40)
@@ -1915,10 +2187,43 @@ def search(ctx, disagreements, proof_info):
                 bad["new_sites"] = [d.to_json()["site"] for d in disagreements
                                     if d.to_json()["kind"] == "new-overflow-site" and d.to_json().get("module") == name][:4]
                 return bad
+    # a slice the real lowerer resolves differently from the model: look for a valuation on which `y.eq(slice)`
+    # is simulated and printed differently
+    for d in disagreements:
+        j = d.to_json()
+        if j["kind"] == "lowering-arith" and "witness" in j:
+            bad = search_slice_witness(ctx, j["witness"], rng)
+            if bad is not None:
+                return bad
     for d in disagreements:
         j = d.to_json()
         if j["kind"] in ("lowering",):
             return j
+    return None
+
+
+def search_slice_witness(ctx, wit, rng, tries=120):
+    """`y.eq(<slice expression>)` through the real convert vs the real simulator on the original design."""
+    lean = ctx.lean
+    ctx.lean = None
+    try:
+        ranges = [range(-(1 << (n - 1)), 1 << (n - 1)) if sg else range(0, 1 << n) for n, sg in wit["sigs"]]
+        for k in range(tries):
+            env = [rng.choice([r_[0], r_[-1], rng.randrange(r_[0], r_[-1] + 1)]) for r_ in ranges]
+            w = dict(wit, id="search", kind="module", status="finding", what="", env=env)
+            try:
+                r = run_witness(ctx, w)
+            except Exception as ex:
+                return {"oracle": "golden-module (slice)", "replay": {"kind": "module", **{k_: w[k_] for k_ in ("sigs", "expr", "lw", "env")}},
+                        "error": repr(ex)[:300], "what": "convert / simulation of y.eq(slice) fails"}
+            if r["simulator"] != r["verilog"]:
+                return {"oracle": "golden-module (slice)", "replay": {"kind": "module", **{k_: w[k_] for k_ in ("sigs", "expr", "lw", "env")}},
+                        "signals": {"s%d" % i: v for i, v in enumerate(env)}, "expression": wit["expr"],
+                        "simulator": r["simulator"], "verilog": r["verilog"], "verilog_text": r["text"],
+                        "what": "y.eq(slice of a Cat/Replicate): the real simulator on the design and the reading of "
+                                "the emitted text differ"}
+    finally:
+        ctx.lean = lean
     return None
 
 
@@ -1964,10 +2269,21 @@ def replay(ctx, payload):
         print("no re-executable failing input in this replay file")
         return 0
     ctx.lean = None
-    if rp["kind"] == "expr":
-        r = run_witness(ctx, dict(rp, kind="expr"))
+    if rp["kind"] in ("expr", "module"):
+        r = run_witness(ctx, dict(rp))
         print("simulator stores %s, Verilog text %r stores %s" % (r["simulator"], r["text"], r["verilog"]))
         return 1 if r["simulator"] != r["verilog"] else 0
+    if rp["kind"] == "run-simulation":
+        if rp["case"] != "safe":
+            print("replay of a Lean-side run_simulation case needs the full check")
+            return 0
+        c, bad = run_simulation_case(rp["seed"], rp["instants"], "safe")
+        if bad is not None:
+            print("instant %s (t=%s) signal %s: run_simulation %s, expected %s" % (
+                bad.get("instant"), bad.get("time"), bad.get("signal"), bad.get("run_simulation"), bad.get("expected_before_this_instant")))
+            return 1
+        print("run_simulation case replayed without divergence")
+        return 0
     if rp["kind"] == "safe-module":
         n, bad, skip = run_safe_module(rp["seed"], 0, None, rp["trace"], rp.get("ticks") or [["sys"]] * len(rp["trace"]))
         if bad is not None:
